@@ -697,6 +697,12 @@ impl LpgStore {
             drop(nodes); // Release lock before removing properties
             drop(index);
             drop(node_labels);
+            // Property indexes must forget the node too (needs the old values)
+            let indexed_keys: Vec<PropertyKey> =
+                self.property_indexes.read().keys().cloned().collect();
+            for key in &indexed_keys {
+                self.update_property_index_on_remove(id, key);
+            }
             self.node_properties.remove_all(id);
 
             // Note: Caller should use delete_node_edges() first if detach is needed
@@ -744,6 +750,12 @@ impl LpgStore {
             drop(versions);
             drop(label_index);
             drop(node_labels);
+            // Property indexes must forget the node too (needs the old values)
+            let indexed_keys: Vec<PropertyKey> =
+                self.property_indexes.read().keys().cloned().collect();
+            for key in &indexed_keys {
+                self.update_property_index_on_remove(id, key);
+            }
             self.node_properties.remove_all(id);
 
             true
